@@ -73,7 +73,74 @@ def check(pid, tier):
             continue                                   # every other clause of that monitor belongs to C06
         path = save_replay(pid, {"kind": "connect-trace", "verdict": verdict, "trace": tr[k]}) if len(violations) < 10 else "(not saved)"
         violations.append((pid, f"metadata derived by transfer rules: {verdict} end={tr[k]['end']}", path))
+    negotiation(pid, tier, ev, rng, violations, machinery)
     return finish(pid, ev, out_lines, violations, machinery)
+
+
+NEG_CFG = """SPECIFICATION Spec
+CONSTANTS Variant = "{variant}" NCons = {ncons} Wide = {wide}
+INVARIANT Agreement
+INVARIANT ConflictRejected
+INVARIANT Provenance
+PROPERTY Negotiated
+PROPERTY Ends
+PROPERTY SucceedsWhenPossible
+CHECK_DEADLOCK FALSE
+"""
+NEG_GUARDS = """SPECIFICATION Spec
+CONSTANTS Variant = "intended" NCons = 2 Wide = FALSE
+INVARIANT {guard}
+CHECK_DEADLOCK FALSE
+"""
+
+
+def negotiation(pid, tier, ev, rng, violations, machinery):
+    """One output with unset fields negotiating with several consumers over the connect rounds
+    (MetaNeg.tla): design level by TLC over all exchange orders, real Composition.connect() runs
+    validated exchange by exchange by MetaNeg_Trace."""
+    runs = [(2, "FALSE")] if tier == "quick" else [(2, "TRUE"), (3, "FALSE")]
+    for ncons, wide in runs:
+        r = tlc.model_check("MetaNeg", NEG_CFG.format(variant="intended", ncons=ncons, wide=wide), coverage=True)
+        ev.add_mc(f"MetaNeg NCons={ncons} Wide={wide}", r, {"NCons": ncons, "Wide": wide, "Variant": "intended"})
+        ev.cov["runs"][-1]["coverage"] = r.coverage
+        if not r.ok:
+            machinery.append(f"MetaNeg design-level check failed: {r.violated}")
+        if r.coverage and r.coverage.get("Exch", {}).get("taken", 0) == 0:
+            machinery.append("MetaNeg: action Exch never taken")
+    neg = tlc.model_check("MetaNeg", NEG_CFG.format(variant="repush", ncons=2, wide="FALSE"))
+    ev.cov["runs"].append({"kind": "negative-control", "name": "MetaNeg Variant=repush", "violated": neg.violated})
+    if not neg.violated:
+        machinery.append("negative control: a re-pushed output info that replaces the negotiated one was not refuted")
+    for g in ("NeverOk", "NeverErr", "NeverFilled"):
+        gr = tlc.model_check("MetaNeg", NEG_GUARDS.format(guard=g))
+        if g not in gr.violated:
+            machinery.append(f"vacuity guard {g} of MetaNeg did not fire")
+    from . import metaneg_run
+    fac = tlc.emit("MetaNegEmit", {})[0]
+    cases = metaneg_run.expand(fac["pinfos"], fac["cinfos"], rng, 4000 if tier == "quick" else 40000)
+    # a sample of configurations under every listing order
+    for c in rng.sample(cases, 40 if tier == "quick" else 400):
+        if len(c["order"]) <= 4:
+            cases += metaneg_run.all_orders(c)
+    tr = run_cases("metaneg_run", "run_case", cases)
+    herr = [t for t in tr if "harness_error" in t]
+    if herr:
+        machinery.append(f"{len(herr)} harness errors (negotiation), first: {herr[0]['harness_error']}")
+        tr = [t for t in tr if "harness_error" not in t]
+    acc, tot, bad, gen, _ = tlc.validate("MetaNeg_Trace", tr)
+    ev.add_traces("MetaNeg_Trace", acc, tot, gen)
+    ok = [t for t in tr if t["end"]["res"] == "ok"]
+    late = [t for t in ok if t["cfg"]["fresh"] and len({e["k"] for e in t["ev"]}) > 1]
+    ev.cov["negotiation"] = {"connected": len(ok), "rejected": len(tr) - len(ok),
+                             "fresh_info_every_call_and_several_exchanges": len(late)}
+    ev.cov["distinct_nontrivial"] += len({jdump(t["case"]) for t in ok})
+    if not ok or len(ok) == len(tr) or not late:
+        machinery.append("vacuous: negotiation runs lack connected / rejected / repeated-info cases")
+    if ok:
+        ev.sample(ok[0])
+    for k, verdict in sorted(bad.items()):
+        path = save_replay(pid, {"kind": "metaneg-trace", "verdict": verdict, "trace": tr[k]}) if len(violations) < 10 else "(not saved)"
+        violations.append((pid, f"metadata negotiation: {verdict} cfg={jdump(tr[k]['cfg'])[:300]} end={jdump(tr[k]['end'])[:200]}", path))
 
 
 def replay(pid, path):
@@ -83,4 +150,6 @@ def replay(pid, path):
     if kind == "connect-trace":
         from . import check_c06
         return check_c06.replay(pid, path)
+    if kind == "metaneg-trace":
+        return replay_fn(pid, path, "MetaNeg_Trace", ("metaneg_run", "run_case"), lambda v, c: "C07")
     return replay_fn(pid, path, "Meta_Trace", RUNNER, lambda v, c: "C07")
